@@ -174,12 +174,12 @@ func build(h history) built {
 		if rev.XrefStream {
 			xn := next
 			next++
-			off = p.XrefStream(xn, entries, trailer, usePrev, rev.W, rev.Flate, rev.Predictor, next+60)
+			off = p.XrefStream(xn, entries, trailer, usePrev, rev.W, rev.Flate, rev.Predictor, next)
 			b.objs = append(b.objs, fmt.Sprintf("%d:%d:t", off, xn))
 			b.expect[xn] = "S"
 			b.special[xn] = true
 		} else {
-			off = p.XrefTable(entries, trailer+fmt.Sprintf(" /Size %d", next+60), usePrev, " \n")
+			off = p.XrefTable(entries, trailer+fmt.Sprintf(" /Size %d", next), usePrev, " \n")
 		}
 		keys := make([]int, 0, len(entries))
 		for n := range entries {
